@@ -92,12 +92,15 @@ def strip_elems(es):
 
 
 def outside_quotes(es):
-    """yield (index, element) for elements outside quoted strings (quotes themselves excluded)"""
+    """yield (index, element) for elements outside quoted strings and units expressions (delimiters excluded)"""
     q = None
     for i, e in enumerate(es):
         if q is None:
             if in_c(e, "\"'"):
                 q = '"' if is_c(e, '"') else "'"
+                continue
+            if is_c(e, "<"):
+                q = ">"              # a units expression: its text is not statement syntax either
                 continue
             yield i, e
         elif is_c(e, q):
@@ -316,16 +319,31 @@ class Surface(Harness):
         return "dialect %s, shape %s, one string leaf of length %d%s, configuration %s" % (
             self.dialect, self.shape, self.n, {"namekey": " used as a parameter name", "ptrkey": " used as a parameter name "
                                                "after '^'", "nskey": " inside the parameter name NS<x>EL", "longkey": " appended to a 28-character name",
-                                               "longptr": " appended to '^' and a 28-character name"}.get(self.shape, ""), self.cfg)
+                                               "longptr": " appended to '^' and a 28-character name",
+                                               "unitskey": " used as the units of a quantity (scalar and in a sequence)",
+                                               "blockname": " used as the name of a group and of an object"}.get(self.shape, ""), self.cfg)
 
     def inputs(self, ctx):
         inp = {"x": rt.leaf_inputs(ctx, "str", self.n, self.dialect)}
+        if self.shape in ("unitskey", "blockname"):
+            # the encoders take names and units as given (D18): no line ends in them, the TAB stays in
+            for ch in (inp["x"].cs if not isinstance(inp["x"], str) else ()):
+                if not isinstance(ch, str):
+                    for o in (10, 11, 12, 13):
+                        ctx.assume(ch.z != o)
         return rt.width_input(ctx, self.dialect, self.cfg, inp)
 
     def prop_fn(self, L, inp):
         x = inp["x"]
         listmods = self.shape in ("namekey", "ptrkey", "nskey", "longkey", "longptr")
-        if listmods:
+        if self.shape == "unitskey":
+            c = rt.C(L)
+            m = c.M([("first", 1), ("v", c.Q(1, x)), ("g", c.G([("w", [c.Q(2.5, x), 3])]))])
+        elif self.shape == "blockname":
+            M, G, O = list_classes(L)
+            listmods = True
+            m = M([("first", 1), (x, G([("a", 3), ("longer_name", 4)])), (x, O([("c", 5)]))])
+        elif listmods:
             M, G, O = list_classes(L)
             key = {"namekey": x, "ptrkey": "^" + x, "nskey": "NS" + x + "EL", "longkey": "A" * 28 + x,
                    "longptr": "^" + "B" * 28 + x}[self.shape]          # around the 30-character limit of ODL names
@@ -351,9 +369,10 @@ def obligations(tier):
     obs = []
     nmax = 2 if tier == "quick" else 3
     for dia in ("PVL", "ODL", "PDS3", "ISIS"):
-        for shape in list(rt.SHAPES) + ["namekey", "ptrkey", "nskey", "longkey", "longptr"]:
+        for shape in list(rt.SHAPES) + ["namekey", "ptrkey", "nskey", "longkey", "longptr", "unitskey"]:
             if shape in ("quant", "quantbad", "wrapunits") or (
-                    shape in ("namekey", "ptrkey", "nskey", "longkey", "longptr") and dia in ("PVL", "ISIS")):
+                    shape in ("namekey", "ptrkey", "nskey", "longkey", "longptr", "unitskey", "blockname")
+                    and dia in ("PVL", "ISIS")):
                 continue
             for n in range(0, nmax + 1):
                 obs.append(Surface(dialect=dia, shape=shape, n=n, cfg="default"))
